@@ -45,7 +45,7 @@ pub fn client(rt: &tokio::runtime::Runtime, cipher: &str, password: &str) -> Res
 
 impl SsuClient {
     pub fn encode(&mut self, addr: Address, payload: &[u8]) -> Result<Vec<u8>> {
-        let mut dst = BytesMut::new();
+        let mut dst = crate::util::dst_dgram();
         let item = (BytesMut::from(payload), addr);
         match self {
             SsuClient::C16(f) => f.codec_mut().encode(item, &mut dst)?,
@@ -96,7 +96,7 @@ impl RawClient {
     }
 
     pub fn encode(&self, csid: u64, pid: u64, addr: Address, payload: &[u8]) -> Result<Vec<u8>> {
-        let mut dst = BytesMut::new();
+        let mut dst = crate::util::dst_dgram();
         match self {
             RawClient::C16(c) => c.encode((BytesMut::from(payload), addr, Session::new(csid, 0, pid, None)), &mut dst)?,
             RawClient::C32(c) => c.encode((BytesMut::from(payload), addr, Session::new(csid, 0, pid, None)), &mut dst)?,
@@ -165,7 +165,7 @@ impl SsuServer {
     }
 
     pub fn encode(&self, csid: u64, ssid: u64, pid: u64, user: Option<&str>, addr: Address, payload: &[u8]) -> Result<Vec<u8>> {
-        let mut dst = BytesMut::new();
+        let mut dst = crate::util::dst_dgram();
         fn find<const N: usize>(um: &ServerUserManager<N>, name: Option<&str>) -> Option<Arc<ServerUser<N>>> {
             let name = name?;
             let h = um.users_iter().find(|u| u.name == name)?.identity_hash();
